@@ -32,13 +32,14 @@ POOL = [
     ("#2H", {}, "ice2:H"),
     ("GRAIN0", {}, "GRAIN0"),
     ("GRAIN0-", {}, "GRAIN0-"),
+    ("H2", {}, "H2"),
     ("H2*", {}, "H2*"),
     ("c-C3H2", {}, "c-C3H2"),
     ("CO", {}, "CO"),
     ("He", {}, "He"),
     ("He+", {}, "He+"),
 ]
-QUICK_POOL = [p for p in POOL if p[0] in ('H', 'H+', 'H-', 'H--', 'e-', 'E', 'oH2', '#H', 'GH', '#1H', '#2H', 'GRAIN0', 'H2*', 'c-C3H2', 'CO')]
+QUICK_POOL = [p for p in POOL if p[0] in ('H', 'H+', 'H-', 'H--', 'e-', 'E', 'oH2', '#H', 'GH', '#1H', '#2H', 'GRAIN0', 'H2', 'H2*', 'c-C3H2', 'CO')]
 
 # upper-case UCLCHEM convention: element list in capitals, a replacement table that restores the usual symbols
 UCL_ELEMENTS = ["E", "H", "HE", "C", "O"]
